@@ -42,11 +42,24 @@ def goenv():
     return env
 
 
-def sh(cmd, cwd=None, env=None, timeout=None, input=None, check=False):
+def _big_stack():
+    import resource
+    try:
+        resource.setrlimit(resource.RLIMIT_STACK, (resource.RLIM_INFINITY, resource.RLIM_INFINITY))
+    except (ValueError, OSError):
+        try:
+            soft, hard = resource.getrlimit(resource.RLIMIT_STACK)
+            resource.setrlimit(resource.RLIMIT_STACK, (hard, hard))
+        except (ValueError, OSError):
+            pass
+
+
+def sh(cmd, cwd=None, env=None, timeout=None, input=None, check=False, big_stack=False):
     """Run a command, return (rc, stdout, stderr) as text."""
     try:
         p = subprocess.run(cmd, cwd=cwd, env=env, timeout=timeout, input=input,
-                           capture_output=True, text=True, shell=isinstance(cmd, str))
+                           capture_output=True, text=True, shell=isinstance(cmd, str),
+                           preexec_fn=_big_stack if big_stack else None)
     except subprocess.TimeoutExpired as e:
         out = e.stdout.decode() if isinstance(e.stdout, bytes) else (e.stdout or "")
         err = e.stderr.decode() if isinstance(e.stderr, bytes) else (e.stderr or "")
@@ -291,7 +304,7 @@ def run_lines(exe, args, lines, timeout=1800, env=None, cwd=None):
     """Feed one op per line, get one result per line."""
     data = "\n".join(lines) + "\n"
     cmd = [str(exe)] + list(args)
-    rc, out, err = sh(cmd, input=data, timeout=timeout, env=env, cwd=cwd)
+    rc, out, err = sh(cmd, input=data, timeout=timeout, env=env, cwd=cwd, big_stack=True)
     res = out.split("\n")
     if res and res[-1] == "":
         res.pop()
@@ -533,3 +546,27 @@ def standard_run(ctx, *, props, family, consts, go_runner, gen_ops, oracle, corr
     if post:
         post(ctx, ops, model_out, go_out)
     return thm, mism, bad
+
+
+def run_lines_resilient(exe, args, lines, timeout=900, env=None, max_restarts=20):
+    """Like run_lines, but when the process dies (e.g. fatal stack overflow, which recover()
+    cannot catch) the line it died on gets the result 'crash <last stderr line>' and the
+    remaining lines are run in a fresh process."""
+    out = []
+    pos = 0
+    crashes = 0
+    while pos < len(lines):
+        rc, res, err = run_lines(exe, args, lines[pos:], timeout=timeout, env=env)
+        out += res[:len(lines) - pos]
+        pos = len(out)
+        if pos >= len(lines):
+            break
+        # died on lines[pos]
+        reason = "timeout" if rc == 124 else next((l for l in err.splitlines() if l.startswith(("fatal error", "runtime:", "panic"))), f"exit {rc}")
+        out.append("crash " + reason.replace("\n", " ")[:200])
+        pos = len(out)
+        crashes += 1
+        if crashes > max_restarts:
+            out += ["crash too-many-restarts"] * (len(lines) - pos)
+            break
+    return out
